@@ -88,6 +88,9 @@ func runC01(p *chk.Prog, r *chk.Report) {
 	// an allocation re-homed under a renamed pool keeps its sharing key and ports (REHOME, shared with C03)
 	c03Rehome(p, r)
 	assignCommitsRule(p, r)
+	// the sharing key, the backend key and the Service key are three strings side by side in every allocator entry
+	// point: they reach it in the order its parameters are declared in (ARG-ROLES, shared with C03, C07)
+	argRolesRule(p, r, 20, allocPkg, "controller")
 	c01OwnAlloc(p, r)
 	c01Rest(p, r)
 }
